@@ -296,8 +296,9 @@ func (p *Population) purgeZeroOffspringSpecies(generation int) {
 			generation, overallAverage, len(p.Organisms), len(p.Species)))
 	}
 
-	// Now compute expected number of offspring for each individual organism
-	if overallAverage != 0 {
+	// Now compute expected number of offspring for each individual organism (an average that is not a finite number - the sum
+	// of huge fitness values overflowed - can not apportion anything and is treated like the zero average: population died)
+	if overallAverage != 0 && !math.IsInf(overallAverage, 0) && !math.IsNaN(overallAverage) {
 		for _, o := range p.Organisms {
 			o.ExpectedOffspring = o.Fitness / overallAverage
 		}
